@@ -356,7 +356,7 @@ func (w *World) GetEntityByID(ctx context.Context, entityID string) (*servicepro
 	w.mu.Unlock()
 	if sp == nil {
 		w.log(Event{Tag: TagOf(ctx), Op: "GetEntityByID", Args: []string{entityID}, Res: "not found", Err: true})
-		return nil, fmt.Errorf("service provider not registered")
+		return nil, fmt.Errorf("service provider %s is not registered", entityID)
 	}
 	w.log(Event{Tag: TagOf(ctx), Op: "GetEntityByID", Args: []string{entityID}, Res: sp.GetEntityID()})
 	return sp, nil
@@ -373,7 +373,7 @@ func (w *World) GetEntityIDByAppID(ctx context.Context, appID string) (string, e
 	w.mu.Unlock()
 	if !ok {
 		w.log(Event{Tag: TagOf(ctx), Op: "GetEntityIDByAppID", Args: []string{appID}, Res: "not found", Err: true})
-		return "", fmt.Errorf("application not registered")
+		return "", fmt.Errorf("application %s is not registered", appID)
 	}
 	w.log(Event{Tag: TagOf(ctx), Op: "GetEntityIDByAppID", Args: []string{appID}, Res: id})
 	return id, nil
@@ -415,7 +415,7 @@ func (w *World) AuthRequestByID(ctx context.Context, id string) (models.AuthRequ
 	w.mu.Unlock()
 	if r == nil {
 		w.log(Event{Tag: TagOf(ctx), Op: "AuthRequestByID", Args: []string{id}, Res: "not found", Err: true})
-		return nil, fmt.Errorf("request not found")
+		return nil, fmt.Errorf("request %s not found", id)
 	}
 	w.log(Event{Tag: TagOf(ctx), Op: "AuthRequestByID", Args: []string{id}, Res: "found"})
 	return &reqView{w: w, tag: TagOf(ctx), r: r}, nil
@@ -444,7 +444,7 @@ func (w *World) SetUserinfoWithUserID(ctx context.Context, applicationID string,
 	w.mu.Unlock()
 	if u == nil {
 		w.log(Event{Tag: TagOf(ctx), Op: "SetUserinfoWithUserID", Args: []string{applicationID, userID}, Res: "not found", Err: true})
-		return fmt.Errorf("user not found")
+		return fmt.Errorf("user %s not found", userID)
 	}
 	fill(userinfo, u)
 	w.log(Event{Tag: TagOf(ctx), Op: "SetUserinfoWithUserID", Args: []string{applicationID, userID}, Res: "ok"})
@@ -462,7 +462,7 @@ func (w *World) SetUserinfoWithLoginName(ctx context.Context, userinfo models.At
 	w.mu.Unlock()
 	if u == nil {
 		w.log(Event{Tag: TagOf(ctx), Op: "SetUserinfoWithLoginName", Args: []string{loginName}, Res: "not found", Err: true})
-		return fmt.Errorf("user not found")
+		return fmt.Errorf("user %s not found", loginName)
 	}
 	fill(userinfo, u)
 	w.log(Event{Tag: TagOf(ctx), Op: "SetUserinfoWithLoginName", Args: []string{loginName}, Res: "ok"})
